@@ -42,14 +42,19 @@ THEOREMS = [P + n for n in (
     'shared_dict_counterexample', 'rebind_makes_shared_dict_harmless', 'transform_inplace_counterexample',
     'concat_reorders_argument', 'shared_write_interferes',
     'fresh_producer_sep_side', 'ctor_fresh', 'ctor_safe', 'produce_content_fresh', 'ctor_content',
-    'label_array_alias_counterexample')]
+    'label_array_alias_counterexample', 'identity_fast_path_counterexample', 'identity_fast_path_fresh_iff')]
 RULE = ('one case = (public callable found by introspection, argument seed, history of documented '
         'in-place operations on components of the result and of the arguments); arguments are built '
         'from the repo\'s own types by seeded factories (list- and ndarray-valued pattern / rdm / obs / '
         'channel descriptors of int, float and str dtype that are ascending without repeats, unsorted or '
         'with repeats, rotating with the seed, and — for callables with a grouping-descriptor or `random` '
         'option, found from the signature — each class selected as the grouping descriptor; signed '
-        'dissimilarities); pair sessions apply two producers to one object, chain sessions apply an '
+        'dissimilarities; and, as extra cases for every callable whose arguments hold numbers, each degenerate-'
+        'but-legitimate value class that reaches one of them — measurements with zero row means / zero column '
+        'means / unit row norms / all-zero rows / constant rows, handed to the estimators without an averaging '
+        'step; RDM vectors with zero mean / sorted / unit norm / unit RMS / non-negative / already ranked; weights '
+        'summing to 1, identity precision and sigma_k, unit theta — exact in float64, one degenerate property '
+        'per class); pair sessions apply two producers to one object, chain sessions apply an '
         'evaluation function to the data object before the call; a case is non-trivial when the call '
         'returned and at least one in-place operation was applied to a component of either side; '
         'the pseudo-case @write-sets compares the mutators\' write sets read from the source text '
@@ -89,6 +94,15 @@ BRANCHES = ['arg:container:0', 'arg:container:1', 'arg:container:2', 'arg:contai
             'arg:sel:rdm:array:rep:int', 'arg:sel:rdm:array:rep:float', 'arg:sel:rdm:list:asc:int', 'arg:sel:rdm:default',
             'arg:random:true', 'arg:random:false', 'arg:random:default', 'session:chain', 'session:repeat',
             'arg:value:array', 'arg:label-arg:array:asc:int', 'arg:label-arg:array:rep:str',
+            # round 6: degenerate-but-legitimate value classes (a normalisation step is the identity)
+            'arg:values:zero-row-mean', 'arg:values:zero-col-mean', 'arg:values:unit-row-norm', 'arg:values:zero-row',
+            'arg:values:const-row', 'arg:values:zero-row-mean+as-is', 'arg:values:zero-col-mean+as-is',
+            'arg:values:unit-row-norm+as-is', 'arg:values:zero-row+as-is', 'arg:values:const-row+as-is',
+            'arg:values:as-is:none', 'arg:values:as-is:unique',
+            'arg:values:rdm:zero-mean', 'arg:values:rdm:sorted', 'arg:values:rdm:unit-norm', 'arg:values:rdm:unit-rms',
+            'arg:values:rdm:nonneg', 'arg:values:rdm:already-ranked',
+            'arg:values:weights-sum-1', 'arg:values:prec-identity', 'arg:values:sigma-identity',
+            'arg:values:theta-unit', 'arg:values:weight-max-1', 'arg:values:method-matched', 'session:again',
             'tie:write-sets', 'tie:ctor-specs', 'tie:ctor:getitem', 'tie:ctor:subset', 'tie:ctor:subsample',
             'tie:ctor:subset_pattern', 'tie:ctor:subsample_pattern', 'tie:ctor:copy', 'tie:ctor:concat',
             'call:returned', 'call:raised', 'side:result-op', 'side:source-op',
@@ -140,6 +154,7 @@ def _without_receiver(q, source):
     return source
 
 
+VC_SEEDS = {'quick': 1, 'thorough': 4}
 PAIR_CLASSES = ['rsatoolbox.rdm.rdms.RDMs.', 'rsatoolbox.data.dataset.Dataset.',
                 'rsatoolbox.data.dataset.TemporalDataset.']
 
@@ -157,11 +172,32 @@ def pair_families(cov):
     return fams
 
 
+USED = {}      # callable -> value-class hooks its recipe goes through (m / d / dpos / aux)
+
+
+def value_classes(q):
+    """the degenerate value classes that reach an argument of q (C12_args: table of classes)"""
+    u = USED.get(q, set())
+    out = []
+    for vc in A.VCLASSES:
+        if vc == A.AUX_VC:
+            ok = 'aux' in u
+        else:
+            ok = (vc in A.M_CLASS and 'm' in u) or (vc in A.D_CLASS and 'd' in u) or \
+                (vc in A.D_CLASS and 'dpos' in u and A.D_CLASS[vc] not in ('zero-mean', 'nonneg'))
+        if ok:
+            out.append(vc)
+    return out
+
+
 def coverage_report():
     cov, unc = [], {}
     for q in producers():
         try:
-            A.build_call(q, 0)
+            USED[q] = set()
+            for s0 in (0, 1, 2):        # the hooks a recipe goes through may depend on its rotating options
+                A.build_call(q, s0)
+                USED[q] |= A.build_call.last_used
             cov.append(q)
         except A.Uncovered as e:
             unc[q] = str(e)
@@ -170,7 +206,7 @@ def coverage_report():
 
 def _key(case):
     return (case['fn'], case.get('with'), case.get('pre'), case['seed'], repr(case.get('hist')), case.get('hseed'),
-            case.get('max_steps'), case.get('shuffle_all'))
+            case.get('max_steps'), case.get('shuffle_all'), case.get('vc'), case.get('again'))
 
 
 def label(case):
@@ -184,7 +220,7 @@ def _call(case):
     """build fresh arguments and call; returns dict with source / result objects"""
     q = case['fn']
     kind, fn, owner = callables()[q]
-    self_obj, args, kwargs = A.build_call(q, case['seed'])
+    self_obj, args, kwargs = A.build_call(q, case['seed'], case.get('vc'))
     _call.tags = list(A.build_call.last_tags)
     full = {'self': self_obj, 'args': args, 'kwargs': kwargs}
     source = _without_receiver(q, full)
@@ -193,8 +229,14 @@ def _call(case):
         # pair session: a second producer is applied to the *same* receiver object; its result
         # joins the source side, so result 1 is checked against the receiver *and* result 2
         kind2, fn2, owner2 = callables()[q2]
-        _, args2, kwargs2 = A.build_call(q2, case['seed'])
+        _, args2, kwargs2 = A.build_call(q2, case['seed'], case.get('vc'))
         source = dict(source, args=list(args) + [None, list(args2), dict(kwargs2)])
+    again = bool(case.get('again')) and not q2
+    if again:
+        # the same callable once more on the *very same* argument objects (a stateful fast path — a
+        # module-level memo keyed by identity, "this array is known to be normalised" — only shows
+        # from the second call on); result 2 joins the source side like the sibling of a pair session
+        source = dict(source, args=list(source['args']) + [None])
     exc = None
     result = None
     # the library draws from numpy's global generator (shuffles, bootstrap samples): the draw
@@ -205,16 +247,18 @@ def _call(case):
         # chain session: another value-returning operation has been applied to the *same* data
         # object before (it may leave the object in a normalised state — `index` as an ndarray,
         # cached attributes); what it returned is dropped, the object is then the argument of fn
-        _pre_call(q0, case['seed'], full)
+        _pre_call(q0, case['seed'], full, case.get('vc'))
     before = H.fingerprint(source)
     try:
         with contextlib.redirect_stdout(io.StringIO()):
             result = A.invoke(kind, fn, owner, q, self_obj, args, kwargs)
             if q2:
                 source['args'][len(args)] = A.invoke(kind2, fn2, owner2, q2, self_obj, args2, kwargs2)
+            if again:
+                source['args'][len(args)] = A.invoke(kind, fn, owner, q, self_obj, args, kwargs)
     except Exception as e:  # noqa: BLE001  library exceptions are part of the result
         exc = type(e).__name__
-    if q2 and exc is None:
+    if (q2 or again) and exc is None:
         sib = source['args'][len(args)]
         source['args'][len(args)] = None
         after = H.fingerprint(source)
@@ -232,14 +276,14 @@ def _top_rdms(full):
     return [x for x in tops if H.kind_of(x)]
 
 
-def _pre_call(q0, seed, full):
+def _pre_call(q0, seed, full, vc=0):
     """apply q0 (built from the same seed, so models and options fit) with its first RDMs / dataset
        argument replaced by the first one of `full`; exceptions of q0 are irrelevant here"""
     target = _top_rdms(full)
     if not target:
         return
     kind0, fn0, owner0 = callables()[q0]
-    self0, args0, kwargs0 = A.build_call(q0, seed)
+    self0, args0, kwargs0 = A.build_call(q0, seed, vc)
     want = H.kind_of(target[0])
     done = False
     if H.kind_of(self0) == want:
@@ -343,7 +387,7 @@ def observe(case):
     heap = ab.heap_json()
     heap['src'] = sides['source'][0]
     heap['res'] = sides['result'][0]
-    if not case.get('with'):
+    if not case.get('with') and not case.get('again'):
         req = K.request(case['fn'], source, result, sides, heap)
         if req is not None:
             # the constructor as a heap program: content predicted from the source heap, sharing derived
@@ -468,6 +512,22 @@ def generate(rng, tier):
         for k in range(max(n_sets, 12) if A.has_desc_options(q) else n_sets):
             # consecutive seeds: the factories rotate their discrete choices with the seed
             yield {'fn': q, 'seed': base + k, 'hseed': rng.randrange(10 ** 6)}
+    # degenerate-but-legitimate value classes (round 6): every callable whose arguments hold numbers
+    # gets every class that reaches one of them — data on which a normalisation step of the
+    # library is exactly the identity, so that a "nothing to do: hand the argument on" fast path is
+    # taken; two consecutive seeds (list / ndarray descriptors, both "as it is" descriptor options)
+    dirty = {k.split('|')[0] for k in known_keys()}
+    for q in cov:
+        for vc in value_classes(q):
+            base = rng.randrange(1, 10 ** 6)
+            # estimators with a `descriptor` option: both "as it is" forms (none / all values distinct)
+            both = vc in A.M_CLASS and 'm' in USED[q] and 'descriptor' in A.params_of(q)
+            for k in range(max(VC_SEEDS[tier], 2 if both else 1)):
+                c = {'fn': q, 'seed': base + k, 'hseed': rng.randrange(10 ** 6), 'vc': vc, 'max_steps': 6}
+                if q not in dirty:
+                    # no known finding of its own: called twice on the same objects (stateful fast paths)
+                    c['again'] = True
+                yield c
     # pair sessions: two different producers applied to the same object; result 1 is checked
     # against the object *and* against result 2 (siblings), in both directions
     for fam in pair_families(cov):
@@ -749,6 +809,8 @@ def features(case, impl):
         br.append('session:repeat' if case['with'] == case['fn'] else 'session:pair')
     if case.get('pre'):
         br.append('session:chain')
+    if case.get('again'):
+        br.append('session:again')
     if o.get('ctor'):
         br.append('tie:ctor:' + o['ctor']['req']['ctor'])
     for r in o['share']:
